@@ -11,7 +11,9 @@ for s in $seeds; do
   fi
   git -C /repo apply /verif/seeded/$s/patch.diff 2>/dev/null || git -C /repo apply --3way /verif/seeded/$s/patch.diff
   if grep -q "\"property_id\": \"$prop\"" /verif/MANIFEST.json; then
+    cp /verif/evidence/$prop.json /verif/out/.evidence.$prop.bak 2>/dev/null  # evidence describes the unchanged tree: keep it
     out=$(/verif/bin/check $prop --tier quick 2>&1); rc=$?
+    [ -f /verif/out/.evidence.$prop.bak ] && mv /verif/out/.evidence.$prop.bak /verif/evidence/$prop.json
     n=$(echo "$out" | grep -c '^VIOLATION')
     echo "$s: exit=$rc violations=$n $(echo "$out" | grep -m1 'failed obligation' | cut -c1-160)"
   else
